@@ -42,6 +42,8 @@ Inductive case :=
 (* ONE long-lived stage object + Intervener + marker, Exec'd at a sequence of instants; marker threaded *)
 | CStageSeq (w : which_stage) (m : intervals) (x : sctx) (marker0 : option (list string))
             (steps : list (Z * list (string * Z) * (bool * option string * (list string * bool))))
+(* dispatch.NewRoute on a loaded config: per route (pre-order) the lists in RouteOpts *)
+| CRoutes (tree : rnode) (eff : list (list string * list string))
 | CCfg (defined root_used : list string) (routes_used : list (list string)) (accepted : bool)
 (* whole instance: the flushes of one group, in order; the marker is threaded from flush to flush *)
 | CSys (m : intervals) (mute active : list string) (fl : list sysflush).
@@ -153,6 +155,7 @@ Inductive shown :=
 | ShZ (z : Z) | ShR (o : option rng) | ShM (o : res (bool * list string))
 | ShS (o : bool * option string * (list string * bool))
 | ShB (b : bool)
+| ShRoutes (l : list (list string * list string))
 | ShMs (l : list (res (bool * list string)))
 | ShSysApi (l : list (bool * option string * (list string * bool))) (a : list (list (nat * list string) * list nat))
 | ShSys (l : list (bool * option string * (list string * bool))).
@@ -167,6 +170,7 @@ Definition show_case (c : case) : shown :=
   | CStage w m tzt x mk0 _ _ _ _ => ShS (stage_model w m tzt x mk0)
   | CMutesSeq m qs => ShMs (map (fun '(names, now, tzt, _) => mutes (tz_table tzt) m names now) qs)
   | CStageSeq w m x mk0 steps => ShSys (stage_seq_model w m x mk0 (map fst steps))
+  | CRoutes tree _ => ShRoutes (route_lists tree)
   | CCfg d ru us _ => ShB (cfg_names_ok d ru us)
   | CSys m mute active fl => ShSysApi (sys_model m mute active (fun _ => None) fl) (sys_api_model m mute active (fun _ => None) fl)
   end.
@@ -184,6 +188,7 @@ Definition check_case (c : case) : bool :=
   | CStage w m tzt x mk0 pass err by_ ism => out_compat (stage_model w m tzt x mk0) (pass, err, (by_, ism))
   | CMutesSeq m qs => forallb (fun '(names, now, tzt, out) => beq (mutes (tz_table tzt) m names now) out) qs
   | CStageSeq w m x mk0 steps => outs_compat (stage_seq_model w m x mk0 (map fst steps)) (map snd steps)
+  | CRoutes tree eff => beq (route_lists tree) eff
   | CCfg d ru us acc => beq (cfg_names_ok d ru us) acc
   | CSys m mute active fl =>
       beq (sys_model m mute active (fun _ => None) fl) (map (fun f => (f_notified f, None, (f_by f, f_muted f))) fl)
@@ -241,6 +246,8 @@ Definition prop_case (c : case) : bool :=
   | CStageSeq StBoth m x mk0 steps =>
       stage_seq_prop StBoth m x mk0 (map fst steps) (fun x' tzt mk => gating_ok m tzt x' mk)
   | CStageSeq _ _ _ _ _ => true
+  | CRoutes tree _ =>   (* a route without lists of its own has none, whatever its ancestors carry *)
+      match tree with RNode mu ac _ => beq (hd ([], []) (route_lists tree)) (mu, ac) end
   | CCfg d ru us _ =>
       negb (cfg_names_ok d ru us) || forallb (forallb (fun n => bool_decide (n ∈ d))) us
   | CSys m mute active fl =>
